@@ -48,3 +48,15 @@ Print Assumptions C03_stts_runs_are_lossless.
 Theorem C03_ctts_runs_are_lossless : forall l : list Z, expand_runs (rle Z.eqb l) = l.
 Proof. intro l. apply expand_runs_rle. intros x y H. apply Z.eqb_eq. exact H. Qed.
 Print Assumptions C03_ctts_runs_are_lossless.
+
+From Muxide Require Export Spec.Checks Proofs.EndToEndProofs.
+(* END TO END: timing tables read back from every finished file equal the submitted timestamps
+   (the 32-bit media-duration bound is the class of recorded finding KF-C03-1 / KF-C16-1) *)
+Theorem C03_finished_file_timing_is_exact : forall b m0 ops m rs s,
+  build b [] = inl m0 -> run m0 ops = (m, rs) -> In (RStats s) rs ->
+  Forall op_payload_ok ops -> len (sink_of m) < 4294967296 ->
+  sumN (durations_of (vsamples (m_writer m)) (w_vlast_delta (m_writer m))) < 4294967296 ->
+  sumN (durations_of (asamples (m_writer m)) (w_alast_delta (m_writer m))) < 4294967296 ->
+  check_C03 b ops (map class_of rs) (sink_of m) = true.
+Proof. exact finished_file_timing_is_exact. Qed.
+Print Assumptions C03_finished_file_timing_is_exact.
